@@ -128,12 +128,17 @@ package container
 //@   property C37
 //@   callee *).VerifySessionDataSignature
 //@   defines result ==> sessionKeySignedData()
+// ("for that verb and container": every operation names the container the token is judged
+// against - a creation names the ID the new container will have - so that a token limited to one
+// container says nothing about another, and a V2 token's verbs are asserted for creations too)
 //@ func (*Processor).verifySessionV2
 //@   property C37
+//@   requires [operation_names_the_container_the_token_is_judged_against] v.idContainerSet
 //@   defines err == nil ==> sessionV2Verified()
 //@ func (*Processor).verifySignature
 //@   property C37
-//@   ensures [authorised_by_owner_signature_or_valid_session] err == nil ==> directOwnerSignature() || sessionV2Verified() || (tokenAuthentic() && tokenVerbOK() && (v.idContainerSet ==> tokenContainerOK()) && tokenIssuedByOwner() && tokenWithinLifetime() && sessionKeySignedData())
+//@   requires [operation_names_the_container_the_token_is_judged_against] v.idContainerSet
+//@   ensures [authorised_by_owner_signature_or_valid_session] err == nil ==> directOwnerSignature() || sessionV2Verified() || (tokenAuthentic() && tokenVerbOK() && tokenContainerOK() && tokenIssuedByOwner() && tokenWithinLifetime() && sessionKeySignedData())
 //@   defines err == nil ==> ownerAuthorised()
 
 //@ ghost pred validAtCurrentEpoch() bool
